@@ -1,9 +1,12 @@
 """C12 - go-to declaration / definition / type definition / implementation hit the right name.
 
-Stages (DESIGN section 4): proofs (Props/C12.v) - corpus (regression witnesses of repaired defects) - correspondence
-of the Coq model Model/Goto.v with the running server (judge commands 30-33) - oracle on the implementation alone
-(expected answers from the derivation of the generated program, tools/splscope.py)."""
+Stages (DESIGN section 4): proofs (Props/C12.v) - corpus (regression witnesses of repaired defects, among them the
+witnesses of the two findings repaired by /repo b909979) - correspondence of the Coq model Model/Goto.v with the
+running server (judge commands 30-33) - oracle on the implementation alone (expected answers from the derivation of
+the generated program, tools/splscope.py) - the instances of the Coq statement C12_full_statement itself, decided by
+the extracted model on the generated programs (judge command 37)."""
 import json
+import time
 
 import common
 import navlib
@@ -11,26 +14,43 @@ import navlib
 PID = "C12"
 METHODS = ["declaration", "definition", "typeDefinition", "implementation"]
 
-# decidable classes of the known findings (known_findings.jsonl); evaluated on the generator's derivation
-CLASS_DOC = {
-    "C12-proc-name-shadowed-by-own-local":
-        "the cursor is on the name of a procedure in its own header and the procedure has a parameter or local "
-        "variable with the same name: the handlers resolve the name in the procedure's local table first and answer "
-        "with the local (declaration/definition), with nothing (implementation) or with the local's type (typeDefinition)",
-    "C12-type-use-shadowed-by-local":
-        "the cursor is on a type identifier inside a parameter or variable declaration of a procedure that has a "
-        "parameter or local variable of the same name: the handlers resolve the name in the local table first and "
-        "answer with the local variable instead of the type",
-}
+# Decidable classes of known findings (known_findings.jsonl, status "known"), evaluated on the generator's derivation.
+# There is none at present: the two former classes (C12-proc-name-shadowed-by-own-local, C12-type-use-shadowed-by-local)
+# were repaired by /repo b909979; their witnesses are regression corpus (corpus/C12/*.json) and a recurrence is a
+# VIOLATION.  REPAIRED names them only to count how often the campaign exercises them.
+CLASS_DOC = {}
 
 
 def classify(d, method, k, o):
+    return None
+
+
+def repaired_class(d, k, o):
     loc = navlib.enclosing_locals(d, o)
     if o["role"] == "proc_decl" and o["name"] in loc:
-        return "C12-proc-name-shadowed-by-own-local"
-    if o["role"] == "type_use" and o["name"] in loc and method != "implementation":
-        return "C12-type-use-shadowed-by-local"
+        return "proc-name-shadowed-by-own-local"
+    if o["role"] == "type_use" and o["name"] in loc:
+        return "type-use-shadowed-by-local"
+    if o["kind"] in ("var", "param") and (o["name"] in d.scope.types or o["name"] in navlib.splgen.BUILTINS or o["name"] == "int"
+                                           or any(i["kind"] == "proc" and i["name"] == o["name"] for i in d.infos)):
+        return "local-named-like-a-global"
     return None
+
+
+def repaired_hits(camp):
+    """positions of the campaign inside the classes of the repaired findings (they are checked by the oracle like
+    every other position)"""
+    h = {}
+    for d, pts in camp.items:
+        if d.kind != "valid":
+            continue
+        for (l, c, k, what) in pts:
+            o = d.occ_at.get(k) if k is not None else None
+            if o is not None:
+                cid = repaired_class(d, k, o)
+                if cid:
+                    h[cid] = h.get(cid, 0) + 1
+    return dict(sorted(h.items()))
 
 
 def run(ctx):
@@ -50,7 +70,6 @@ def run(ctx):
     valid = navlib.gen_valid_docs(ctx.rng, 3.5e8 if thorough else 4.5e7)
     malformed = navlib.gen_malformed_docs(ctx.rng, 5000 if thorough else 1000, 10)
     short = navlib.gen_short_docs(ctx.rng, 120 if thorough else 40)
-    import time
     t0 = time.time()
     camp.run(valid + malformed + short, workers=8)
     t_run = time.time() - t0
@@ -62,11 +81,22 @@ def run(ctx):
         ctx.known("%s: %s" % (cid, CLASS_DOC[cid]))
     reported = navlib.report_oracle(ctx, PID, camp, fails, "textDocument/%s differs from the binding of the occurrence under SPL scoping")
 
+    # ---- the Coq statement itself on the generated programs
+    t0 = time.time()
+    full_stats, full_kernel = ({}, [])
+    if judge and not camp.model_errors:
+        nv = len(ctx.violations)
+        full_stats, full_kernel = navlib.full_statement_instances(
+            ctx, PID, judge, camp, 1, "an instance of C12_full_statement (Spec/Nav.v) is false on the model: a go-to handler differs "
+            "from spec_declaration / spec_type_definition / spec_implementation at this occurrence")
+        reported += len(ctx.violations) - nv
+    t_full = time.time() - t0
+
     # ---- correspondence
     kfail, nk = [], 0
     t0 = time.time()
     if judge and not camp.model_errors:
-        cases = camp.kernel_cases(range(nshort0, len(camp.items)))
+        cases = camp.kernel_cases(range(nshort0, len(camp.items))) + full_kernel
         nk = len(cases)
         try:
             kfail = common.kernel_judge(PID, cases)
@@ -94,7 +124,8 @@ def run(ctx):
         "distinct_nontrivial": len(nontrivial),
         "rule": "well-typed programs of tools/splgen.py (1-5 declarations; cross-declaration targets, doc comments, comment lines in "
                 "gaps, CRLF, dense layouts with several declarations per line, predefined procedures, the same names in different "
-                "procedures, + locals renamed to collide with their procedure / a type / another procedure) queried with the four requests "
+                "procedures, + locals renamed to collide with their procedure / a type / `int` / another or a predefined procedure: the "
+                "classes of the findings repaired by b909979) queried with the four requests "
                 "at every column of every identifier occurrence and the column after it (documents > 2600 characters: first, last and a "
                 "random column), one position per other token, 25 gap positions, line ends, overshooting columns and lines; damaged "
                 "programs / token soup / random unicode at 10 positions biased towards identifier characters.  non-trivial = distinct "
@@ -106,6 +137,8 @@ def run(ctx):
         "oracle_failures": len(fails),
         "known_finding_hits": {k: len(v) for k, v in sorted(known.items())},
         "known_finding_witness_still_fails": witness_state,
+        "positions_in_repaired_classes": repaired_hits(camp),
+        "full_statement_instances": full_stats,
         "traces_validated_against_impl": camp.compared(),
         "kernel_judge_cases": nk,
         "correspondence_mismatches": len(camp.mismatches) + len(kfail) + len(camp.model_errors),
@@ -114,14 +147,14 @@ def run(ctx):
         "requests_not_observed_after_a_crash": camp.unobserved,
         "samples": [dict(text=camp.items[i][0].text[:600], position=list(camp.items[i][1][0][:2]),
                          answers={m: camp.server[i][1][m][0] for m in METHODS}) for i in ctx.rng.sample(range(len(camp.items)), 3)],
-        "timing_s": {"server+model": round(t_run, 1), "kernel_judge": round(t_k, 1)},
+        "timing_s": {"server+model": round(t_run, 1), "kernel_judge": round(t_k, 1), "full_statement_instances": round(t_full, 1)},
         "explanation": EXPLANATION,
     })
     ctx.assumptions = [
         "AnalyzedSource::new produces documents satisfying Refs.nav_wf_b (hypothesis of C12_robust): not proved, evaluated by the judge on "
         "every document of every run (a violation makes the model output unreadable = correspondence failure)",
-        "the full functional statement C12_full_statement is not proved; it is refuted on the model for the two known-finding classes "
-        "(C12_full_statement_refuted) and validated by correspondence + oracle outside them",
+        "the full functional statement C12_full_statement is not proved (and, since /repo b909979, no longer refuted: no counterexample "
+        "is known); it is validated by correspondence + oracle + its instances decided by the extracted model (judge command 37)",
         "serde/lsp-types JSON mapping trusted; positions are (line, UTF-16 column)",
     ]
     if thorough and proved:
@@ -131,18 +164,26 @@ def run(ctx):
 
 EXPLANATION = (
     "level other: Props/C12.v proves, for ALL documents (any text/tokens/tree/table, not only analysed ones), about the Coq model "
-    "Model/Goto.v of goto.rs: the four handlers never fail on a document satisfying the decidable well-formedness predicate nav_wf_b "
-    "(C12_robust); no identifier token under the cursor or no context => no location (C12_no_identifier_no_location); a name that resolves "
-    "to a predefined entity => no location from declaration/definition/implementation, and `int`, procedures, variables of primitive type "
-    "or of an array type whose creator is not a type of the table => no location from typeDefinition (C12_predefined_no_location, "
-    "C12_type_definition_none); definition = declaration (C12_definition_is_declaration); every returned range is the position range of a "
-    "token of the document (C12_answer_is_a_token); implementation answers only where declaration gives the same answer "
-    "(C12_implementation_refines_declaration).  NOT proved: the full functional statement (C12_full_statement: on every analysed, "
-    "diagnostic-free text every identifier occurrence at every column inside it yields the name token of the declaration it is bound to "
-    "by its syntactic role) - it is REFUTED on the model by the witnesses of the two known findings (C12_full_statement_refuted) and, "
-    "outside these classes, validated only: by the correspondence of the model with the running server (extracted judge on every "
-    "request, coqc's VM on short documents) and by the oracle that compares the server with bindings computed from the generator's "
-    "derivation.  That AnalyzedSource::new yields nav_wf_b documents is validated on every document, not proved.")
+    "Model/Goto.v of goto.rs as of /repo b909979 (names resolved by syntactic position: behind `proc`, `type`, `:` or `of` in the global "
+    "table only, elsewhere in the enclosing procedure first - Model/Cursor.v is_global_position / lookup_for): the four handlers never "
+    "fail on a document satisfying the decidable well-formedness predicate nav_wf_b (C12_robust); no identifier token under the cursor or "
+    "no context => no location (C12_no_identifier_no_location); a name that resolves to a predefined entity => no location from "
+    "declaration/definition/implementation, and `int`, procedures, variables of primitive type or of an array type whose creator is not "
+    "a type of the table => no location from typeDefinition (C12_predefined_no_location, C12_type_definition_none); definition = "
+    "declaration (C12_definition_is_declaration); every returned range is the position range of a token of the document "
+    "(C12_answer_is_a_token); implementation answers only where declaration gives the same answer "
+    "(C12_implementation_refines_declaration); in a global position the answers do not depend on the enclosing procedure's locals and are "
+    "those of a type context (C12_global_position_ignores_locals, C12_global_position_as_type_context); elsewhere a local of the enclosing "
+    "procedure wins whatever else has its name (C12_local_wins).  NOT proved: the full functional statement C12_full_statement "
+    "(Spec/Nav.v: on every analysed, diagnostic-free text every identifier occurrence at every column inside it yields the name token of "
+    "the declaration it is bound to by its syntactic role).  It is no longer refuted: on the witnesses of the two findings repaired by "
+    "b909979 (C12-proc-name-shadowed-by-own-local, C12-type-use-shadowed-by-local; now regression corpus) and on a program with every "
+    "local/global name collision it holds at every occurrence (C12_repaired_witnesses_agree, by vm_compute), and no counterexample is "
+    "known.  It is validated only: by the correspondence of the model with the running server (extracted judge on every request, coqc's VM "
+    "on short documents), by the oracle that compares the server with bindings computed from the generator's derivation, and by the "
+    "extracted model deciding the instances of the Coq statement itself at every occurrence of the generated programs (judge command 37, "
+    "which also checks that the statement's occurrences are exactly the identifier tokens).  That AnalyzedSource::new yields nav_wf_b "
+    "documents is validated on every document, not proved.")
 
 
 def replay(ctx, path):
